@@ -41,6 +41,8 @@ pub fn passes(tier: &str) -> Vec<Pass> {
         mk("last-level+L0+memtable", d.clone(), "l6_l0_mem", 1, if q { 2 } else { 4 }, 1, if q { 5.0 } else { 300.0 }),
         mk("tombstone-over-value", d.clone(), "tomb_over_value", 2, if q { 2 } else { 4 }, 1, if q { 5.0 } else { 300.0 }),
         mk("two-sealed-journals", d.clone(), "two_sealed_journals", 1, if q { 2 } else { 4 }, 1, if q { 5.0 } else { 300.0 }),
+        mk("sealed-journal-all-record-kinds", d.clone(), "sealed_journal_all_kinds", 1, if q { 1 } else { 3 }, 1, if q { 3.0 } else { 200.0 }),
+        mk("sealed-journal-half-flushed", d.clone(), "sealed_journal_x_half_flushed", 1, if q { 1 } else { 3 }, 1, if q { 3.0 } else { 200.0 }),
         mk("meta-keyspace-highest", d.clone(), "meta_highest", 3, if q { 1 } else { 5 }, 1, if q { 4.0 } else { 300.0 }),
     ];
     if !q {
